@@ -71,7 +71,7 @@ type HarnessResult struct {
 }
 
 var stdInitWhitelist = map[string]bool{
-	"errors": true, "math/bits": true, "io": true, "sort": true, "unicode/utf8": true, "strconv": true,
+	"math/bits": true, "io": true, "sort": true, "unicode/utf8": true, "strconv": true,
 	"math": true, "slices": true, "cmp": true, "iter": true, "maps": true, "strings": true, "bytes": true,
 	"hash/fnv": true, "hash": true, "time": false,
 }
@@ -174,10 +174,15 @@ func (e *Engine) runPath(h *Harness, z *sym.Solver, item WorkItem) (m *Machine, 
 			end = x
 		case targetPanic:
 			end = PathEnd{"panic", "uncaught panic: " + Describe(x.v)}
+		case engineBug:
+			end = PathEnd{"enginebug", x.msg}
+			if e.Verbose {
+				fmt.Printf("ENGINE BUG in %s: %s\n%s", h.Name, x.msg, x.trace)
+			}
 		default:
 			end = PathEnd{"enginebug", fmt.Sprint(r)}
 			if e.Verbose {
-				panic(r)
+				fmt.Printf("ENGINE BUG in %s: %v\n", h.Name, r)
 			}
 		}
 		if end.Kind == "panic" || end.Kind == "bound" || end.Kind == "deadlock" {
